@@ -106,3 +106,557 @@ Proof.
   { destruct style as [st|]; [|exact N1]. apply (extends_nonempty errs1); [apply parse_entries_extends|exact N1]. }
   destruct H as [[E _]|[_ H]]; [congruence|]. eexists; split; [exact H|exact N2].
 Qed.
+
+(* ================= the document level ================= *)
+
+Lemma parse_blocks_total bs : Forall block_total bs -> forall rs es,
+  exists rs' es', parse_blocks bs rs es = Ok (rs', es') /\ extends es es' /\ (Exists block_fails bs -> es' <> []).
+Proof.
+  induction 1 as [|b bs Hb _ IH]; intros rs es.
+  - exists rs, es. split; [reflexivity|]. split; [apply extends_refl|]. intros E. inversion E.
+  - cbn [parse_blocks]. destruct Hb as [[r Hr]|(errs & Hr & Hne)]; rewrite Hr.
+    + destruct (IH (rs ++ [r]) es) as (rs' & es' & P & X & F). exists rs', es'. split; [exact P|]. split; [exact X|].
+      intros E. inversion E as [? ? Hf|? ? Hf]; subst; [|exact (F Hf)].
+      destruct Hf as (errs & Hr' & _). congruence.
+    + destruct (IH rs (es ++ map (report b) errs)) as (rs' & es' & P & X & F). exists rs', es'. split; [exact P|].
+      split; [eapply extends_trans; [|exact X]; eexists; reflexivity|].
+      intros _. apply (extends_nonempty (es ++ map (report b) errs)); [exact X|].
+      destruct errs; [congruence|]. cbn [map]. intros E. apply app_eq_nil in E as [_ E]. discriminate.
+Qed.
+
+(* what the lines of a raw document have to do with its groups *)
+Definition raw_group_of (g : group) (tg : list text * list text) : Prop :=
+  map l_text (fst g) = map utf8_encode (fst tg) /\ map l_text (snd g) = map utf8_encode (snd tg).
+
+Lemma split_raw_groups tgs : forall L,
+  map l_text L = map utf8_encode (flat_map (fun g => fst g ++ snd g) tgs) ->
+  exists gs, L = flat_map group_lines gs /\ Forall2 raw_group_of gs tgs.
+Proof.
+  induction tgs as [|tg tgs IH]; intros L M.
+  - destruct L; [|discriminate]. exists []. split; [reflexivity|constructor].
+  - cbn [flat_map] in M. rewrite !map_app in M.
+    apply map_eq_app in M as (L1 & L2 & -> & M1 & M2).
+    apply map_eq_app in M1 as (La & Lb & -> & Ma & Mb).
+    destruct (IH L2 M2) as (gs & -> & F).
+    exists ((La, Lb) :: gs). split; [reflexivity|]. constructor; [split; assumption|exact F].
+Qed.
+
+Lemma nonblank_lines_of_texts ls ts : map l_text ls = map utf8_encode ts ->
+  forallb (fun t => negb (blank_text t)) ts = true -> forallb (fun l => negb (is_blank l)) ls = true.
+Proof.
+  revert ls. induction ts as [|t ts IH]; intros ls M B; destruct ls as [|l ls]; try discriminate; [reflexivity|].
+  assert (Ml : l_text l = utf8_encode t) by (cbn [map] in M; congruence).
+  assert (Mr : map l_text ls = map utf8_encode ts) by (cbn [map] in M; congruence).
+  cbn [forallb] in *. apply andb_true_iff in B as [Bt B]. rewrite (is_blank_of_text l t Ml), Bt. exact (IH ls Mr B).
+Qed.
+
+Lemma raw_gaps_ok_cons tg tgs : raw_gaps_ok (tg :: tgs) = true ->
+  forallb blank_text (snd tg) = true /\ (tgs = [] \/ snd tg <> []) /\ raw_gaps_ok tgs = true.
+Proof.
+  destruct tgs as [|tg2 tgs']; cbn [raw_gaps_ok]; intros G.
+  - repeat split; [exact G|left; reflexivity].
+  - apply andb_true_iff in G as [G G2]. apply andb_true_iff in G as [G N]. repeat split; try assumption.
+    right. destruct (snd tg); [discriminate|discriminate].
+Qed.
+
+Definition sig_ok (tg : list text * list text) : bool :=
+  negb (Nat.eqb (length (fst tg)) 0) && forallb (fun t => negb (blank_text t)) (fst tg).
+
+Lemma raw_groups_ok gs tgs : Forall2 raw_group_of gs tgs ->
+  forallb sig_ok tgs = true -> raw_gaps_ok tgs = true -> groups_ok gs = true.
+Proof.
+  induction 1 as [|g tg gs tgs [Hs Hg] F IH]; intros W G; [reflexivity|].
+  cbn [forallb] in W. apply andb_true_iff in W as [Wr W].
+  destruct (raw_gaps_ok_cons tg tgs G) as (Gb & Gn & G').
+  specialize (IH W G'). unfold sig_ok in Wr. apply andb_true_iff in Wr as [Wne Wnb].
+  assert (Hg1 : forall b, (b = true \/ snd g <> []) -> group_ok b g = true).
+  { intros b Hb. unfold group_ok.
+    rewrite (nonblank_lines_of_texts _ _ Hs Wnb), (blank_lines_of_texts _ _ Hg Gb).
+    assert (L : length (fst g) = length (fst tg)) by (rewrite <- (map_length l_text), Hs, map_length; reflexivity).
+    rewrite L, Wne. cbn [andb].
+    destruct Hb as [-> | Hb]; [reflexivity|]. destruct (snd g); [congruence|]. cbn [length Nat.eqb negb]. apply orb_true_r. }
+  destruct gs as [|g2 gs'].
+  - cbn [groups_ok]. apply Hg1. left. reflexivity.
+  - change (groups_ok (g :: g2 :: gs')) with (group_ok false g && groups_ok (g2 :: gs')). rewrite IH, andb_true_r.
+    apply Hg1. right. destruct Gn as [-> | Gn]; [inversion F|].
+    intros E. apply Gn. rewrite E in Hg. destruct (snd tg); [reflexivity|discriminate].
+Qed.
+
+(* a list of line texts that makes any block holding them as its significant lines fail *)
+Definition sig_fails (ts : list text) : Prop :=
+  forall b head sig tail, b_lines b = head ++ sig ++ tail ->
+  forallb is_blank head = true -> forallb is_blank tail = true ->
+  map l_text sig = map utf8_encode ts -> block_fails b.
+
+Lemma significant_lines_group p head g : forallb is_blank head = true -> group_ok true g = true \/ group_ok false g = true ->
+  significant_lines {| b_preceding := p; b_lines := head ++ fst g ++ snd g |} = (fst g, length head, length (snd g)).
+Proof.
+  intros Hh Hg. assert (G : exists b, group_ok b g = true) by (destruct Hg; eexists; eassumption). destruct G as [b0 G].
+  apply group_ok_inv in G as (A & B & C & _).
+  unfold significant_lines. cbn [b_lines].
+  assert (S0 : match fst g ++ snd g with l :: _ => is_blank l = false | [] => True end).
+  { destruct (fst g) as [|l r]; [congruence|]. cbn [forallb] in B. apply andb_true_iff in B as [B _]. apply negb_true_iff in B. exact B. }
+  rewrite (take_blank_app head _ Hh S0).
+  assert (B0 : match snd g with l :: _ => is_blank l = true | [] => True end).
+  { destruct (snd g) as [|l r]; [trivial|]. cbn [forallb] in C. apply andb_true_iff in C as [C _]. exact C. }
+  rewrite (take_significant_app (fst g) _ B B0). reflexivity.
+Qed.
+
+Lemma groups_ok_each gs : groups_ok gs = true -> Forall (fun g => group_ok true g = true \/ group_ok false g = true) gs.
+Proof.
+  induction gs as [|g gs IH]; intros H; [constructor|]. destruct (groups_ok_cons g gs H) as [Hg Hgs].
+  constructor; [destruct gs; [left|right]; exact Hg|apply IH; exact Hgs].
+Qed.
+
+Lemma expect_blocks_total gs : groups_ok gs = true -> forall p head, forallb is_blank head = true ->
+  Forall block_total (expect_blocks p head gs).
+Proof.
+  intros H. pose proof (groups_ok_each gs H) as E. clear H. induction E as [|g gs Hg _ IH]; intros p head Hh; [constructor|].
+  cbn [expect_blocks]. constructor; [|apply IH; reflexivity].
+  pose proof (significant_lines_group p head g Hh Hg) as S0.
+  assert (Ne : exists hl rest, fst g = hl :: rest).
+  { assert (G : exists b, group_ok b g = true) by (destruct Hg; eexists; eassumption). destruct G as [b0 G].
+    apply group_ok_inv in G as (A & _). destruct (fst g) as [|hl rest]; [congruence|]. eexists; eexists; reflexivity. }
+  destruct Ne as (hl & rest & Eg). rewrite Eg in S0 at 2. exact (parse_record_total _ _ _ _ _ S0).
+Qed.
+
+Lemma expect_blocks_fails gs tgs : Forall2 raw_group_of gs tgs -> groups_ok gs = true ->
+  Exists (fun tg => sig_fails (fst tg)) tgs ->
+  forall p head, forallb is_blank head = true -> Exists block_fails (expect_blocks p head gs).
+Proof.
+  intros F. induction F as [|g tg gs tgs [Hs Hg] F IH]; intros H E p head Hh; [inversion E|].
+  destruct (groups_ok_cons g gs H) as [Hg1 Hgs]. cbn [expect_blocks].
+  inversion E as [? ? Hf|? ? Hf]; subst.
+  - apply Exists_cons_hd. apply (Hf {| b_preceding := p; b_lines := head ++ fst g ++ snd g |} head (fst g) (snd g) eq_refl Hh); [|exact Hs].
+    apply group_ok_inv in Hg1 as (_ & _ & C & _). exact C.
+  - apply Exists_cons_tl. apply IH; [exact Hgs|exact Hf|reflexivity].
+Qed.
+
+(* L4, general form: a raw document one of whose record places holds failing lines is rejected, with at least one error
+   and no records *)
+Theorem reject_raw rd : raw_ok rd = true -> Exists (fun tg => sig_fails (fst tg)) (rd_groups rd) ->
+  exists es, parse_text (render_raw rd) = Ok (Failed es) /\ es <> [].
+Proof.
+  intros W E. unfold raw_ok in W. apply andb_true_iff in W as [W U]. apply andb_true_iff in W as [W G].
+  apply andb_true_iff in W as [W Sg]. apply andb_true_iff in W as [Wl T].
+  unfold parse_text, blocks_of, render_raw.
+  rewrite (lines_of_text_of_lines (raw_doc_lines rd)) by (apply lines_ok_attach; assumption).
+  pose proof (map_l_text_attach (rd_crlf rd) (rd_final_newline rd) (raw_texts rd) 0) as M. fold (raw_doc_lines rd) in M.
+  unfold raw_texts in M. rewrite map_app in M. apply map_eq_app in M as (Llead & L2 & EL & Ml & M2).
+  destruct (split_raw_groups (rd_groups rd) L2 M2) as (gs & -> & F).
+  rewrite EL. unfold blocks_of_lines.
+  assert (Hlead : forallb is_blank Llead = true) by (apply (blank_lines_of_texts _ _ Ml Wl)).
+  pose proof (raw_groups_ok gs _ F Sg G) as Gok.
+  rewrite (blocks_fuel_groups gs Gok _ 0 Llead Hlead (le_n _)).
+  unfold parse_lines_blocks.
+  destruct (parse_blocks_total _ (expect_blocks_total gs Gok 0 Llead Hlead) [] []) as (rs' & es' & P & _ & Fl).
+  rewrite P. specialize (Fl (expect_blocks_fails gs _ F Gok E 0 Llead Hlead)).
+  destruct es' as [|e es']; [congruence|]. eexists; split; [reflexivity|discriminate].
+Qed.
+
+(* ================= fault classes ================= *)
+
+Lemma sig_significant b head sig tail hl_t ts : b_lines b = head ++ sig ++ tail ->
+  forallb is_blank head = true -> forallb is_blank tail = true ->
+  map l_text sig = map utf8_encode (hl_t :: ts) -> forallb (fun t => negb (blank_text t)) (hl_t :: ts) = true ->
+  exists hl rest, sig = hl :: rest /\ l_text hl = utf8_encode hl_t /\ map l_text rest = map utf8_encode ts
+                  /\ significant_lines b = (hl :: rest, length head, length tail).
+Proof.
+  intros Hb Hh Ht M Nb. pose proof (nonblank_lines_of_texts _ _ M Nb) as Hs.
+  cbn [map] in M. apply map_eq_cons in M as (hl & rest & -> & Mh & Mr).
+  exists hl, rest. repeat split; try assumption.
+  assert (Htail : match tail with l :: _ => is_blank l = true | [] => True end).
+  { destruct tail; [trivial|]. cbn [forallb] in Ht. apply andb_true_iff in Ht as [Ht _]. exact Ht. }
+  assert (Hsig0 : is_blank hl = false).
+  { cbn [forallb] in Hs. apply andb_true_iff in Hs as [Hs _]. apply negb_true_iff in Hs. exact Hs. }
+  unfold significant_lines. rewrite Hb.
+  rewrite (take_blank_app head ((hl :: rest) ++ tail) Hh Hsig0).
+  rewrite (take_significant_app (hl :: rest) tail Hs Htail). reflexivity.
+Qed.
+
+(* ---- A: the headline does not begin with a date (malformed, or not a Gregorian date) ---- *)
+
+Lemma bad_date_fails dtxt rest others :
+  text_ok (dtxt ++ rest) = true ->
+  forallb (fun t => negb (blank_text t)) ((dtxt ++ rest) :: others) = true ->
+  match dtxt with c :: _ => is_space_or_tab c = false | [] => False end ->
+  forallb (fun c => negb (is_space_or_tab c)) dtxt = true ->
+  match rest with c :: _ => is_space_or_tab c = true | [] => True end ->
+  (forall d, parse_date (utf8_encode dtxt) <> Ok d) ->
+  sig_fails ((dtxt ++ rest) :: others).
+Proof.
+  intros Tok Nb Hd0 Hd Hr Hp b head sig tail Hb Hh Ht M.
+  destruct (sig_significant b head sig tail _ _ Hb Hh Ht M Nb) as (hl & rs & -> & Mh & Mr & Sg).
+  apply (headline_error_fails b hl rs _ _ Sg). rewrite Mh, (decode_encode _ Tok).
+  unfold parse_headline.
+  destruct dtxt as [|c0 r0]; [contradiction|].
+  rewrite (peek_at_cons ((c0 :: r0) ++ rest) 0 [] c0 (r0 ++ rest) eq_refl eq_refl), Hd0.
+  rewrite (peek_until_at is_space_or_tab ((c0 :: r0) ++ rest) 0 [] (c0 :: r0) rest eq_refl eq_refl Hd Hr).
+  cbv iota beta. unfold str.
+  destruct (parse_date (utf8_encode (c0 :: r0))) as [d| |]; [exfalso; exact (Hp d eq_refl)|discriminate|discriminate].
+Qed.
+
+Lemma Exists_replace_nth {A} (P : A -> Prop) l k x y : nth_error l k = Some x -> P y -> Exists P (replace_nth k y l).
+Proof.
+  revert k. induction l as [|z l IH]; intros k H Py; [destruct k; discriminate|].
+  destruct k as [|k]; cbn [replace_nth]; [apply Exists_cons_hd; exact Py|apply Exists_cons_tl, (IH k H Py)].
+Qed.
+
+Lemma nth_error_replace_nth {A} (l : list A) k x y : nth_error l k = Some x -> nth_error (replace_nth k y l) k = Some y.
+Proof.
+  revert k. induction l as [|z l IH]; intros k H; [destruct k; discriminate|].
+  destruct k as [|k]; [reflexivity|]. cbn [replace_nth nth_error]. apply IH. exact H.
+Qed.
+
+Lemma forallb_nth_error {A} (p : A -> bool) l k x : forallb p l = true -> nth_error l k = Some x -> p x = true.
+Proof. intros H E. rewrite forallb_forall in H. apply H. eapply nth_error_In. exact E. Qed.
+
+(* the group that an injection puts in place of record k *)
+Lemma inject_group k j t d rg : nth_error (do_records d) k = Some rg ->
+  rd_groups (inject_raw k j t d) = replace_nth k (replace_nth j t (record_texts (fst rg)), snd rg)
+                                     (map (fun rg => (record_texts (fst rg), snd rg)) (do_records d)).
+Proof.
+  intros H. unfold inject_raw, raw_of. cbn [rd_groups rd_lead].
+  rewrite (map_nth_error (fun rg => (record_texts (fst rg), snd rg)) k (do_records d) H). reflexivity.
+Qed.
+
+(* L4, class "malformed or non-Gregorian date": the date of record k's headline is replaced by a text without blanks
+   that is no date literal of the specification *)
+Theorem reject_bad_date d k rg dtxt :
+  nth_error (do_records d) k = Some rg ->
+  let t := dtxt ++ skipn 10 (headline_text (fst rg)) in
+  raw_ok (inject_raw k 0 t d) = true ->
+  match dtxt with c :: _ => is_space_or_tab c = false | [] => False end ->
+  forallb (fun c => negb (is_space_or_tab c)) dtxt = true ->
+  (forall x, parse_date (utf8_encode dtxt) <> Ok x) ->
+  match skipn 10 (headline_text (fst rg)) with c :: _ => is_space_or_tab c = true | [] => True end ->
+  exists es, parse_text (inject k 0 t d) = Ok (Failed es) /\ es <> [].
+Proof.
+  intros Hk t Rok Hd0 Hd Hp Hr. apply (reject_raw _ Rok).
+  rewrite (inject_group k 0 t d rg Hk).
+  apply (Exists_replace_nth _ _ k (record_texts (fst rg), snd rg)).
+  { apply (map_nth_error (fun rg => (record_texts (fst rg), snd rg)) k (do_records d) Hk). }
+  cbn [fst]. unfold record_texts. cbn [replace_nth].
+  pose proof Rok as Rok'. unfold raw_ok in Rok'. apply andb_true_iff in Rok' as [W _]. apply andb_true_iff in W as [W _].
+  apply andb_true_iff in W as [W Sg]. apply andb_true_iff in W as [_ T].
+  rewrite (inject_group k 0 t d rg Hk) in Sg.
+  pose proof (forallb_nth_error _ _ k _ Sg (nth_error_replace_nth _ k (record_texts (fst rg), snd rg) _
+               (map_nth_error (fun rg => (record_texts (fst rg), snd rg)) k (do_records d) Hk))) as Sk.
+  cbn [fst] in Sk. apply andb_true_iff in Sk as [_ Nb]. unfold record_texts in Nb. cbn [replace_nth] in Nb.
+  assert (Tok : text_ok t = true).
+  { unfold raw_texts in T. rewrite forallb_app in T. apply andb_true_iff in T as [_ T].
+    rewrite forallb_forall in T. apply T. apply in_flat_map.
+    exists (replace_nth 0 t (record_texts (fst rg)), snd rg). split.
+    - rewrite (inject_group k 0 t d rg Hk). eapply nth_error_In. apply nth_error_replace_nth with (x := (record_texts (fst rg), snd rg)).
+      apply (map_nth_error (fun rg => (record_texts (fst rg), snd rg)) k (do_records d) Hk).
+    - cbn [fst snd]. unfold record_texts. cbn [replace_nth]. left. reflexivity. }
+  apply bad_date_fails; assumption.
+Qed.
+
+(* ---- B: a fault on an entry line; the entries before it parse as usual ---- *)
+
+Lemma no_double_prefix_app ind a b : a <> [] -> no_double_prefix ind a -> no_double_prefix ind (a ++ b).
+Proof. destruct a; [congruence|]. intros _ H. exact H. Qed.
+
+Lemma parse_entries_prefix i es : forallb wf_entry es = true ->
+  forall fuel ln ls rest acc errs,
+  map l_text ls = map utf8_encode (flat_map (entry_texts (indent_text i)) es) ->
+  no_double_prefix (indent_text i) rest ->
+  (length ls + length rest <= fuel)%nat ->
+  (count_open es + (if has_open_entry acc then 1 else 0) <= 1)%nat ->
+  exists fuel', (length rest <= fuel')%nat /\
+    parse_entries fuel (indent_text i) ln (ls ++ rest) acc errs
+    = parse_entries fuel' (indent_text i) (ln + length ls) rest (acc ++ map denote_entry es) errs.
+Proof.
+  induction es as [|e es IH]; intros W fuel ln ls rest acc errs M R Hf Ho.
+  - destruct ls; [|discriminate]. exists fuel. cbn [app length map] in *. rewrite app_nil_r, Nat.add_0_r. split; [lia|reflexivity].
+  - cbn [forallb] in W. apply andb_true_iff in W as [We W].
+    cbn [flat_map] in M. unfold entry_texts at 1 in M. cbn [app map] in M.
+    destruct ls as [|l ls]; [discriminate|]. injection M as Ml M.
+    rewrite map_app in M. apply map_eq_app in M as (ls_m & ls_r & -> & Mm & Mr).
+    rewrite map_map in Mm.
+    destruct fuel as [|k]; [cbn [length] in Hf; lia|].
+    rewrite count_open_cons in Ho.
+    assert (R' : no_double_prefix (indent_text i) (ls_r ++ rest)).
+    { destruct ls_r as [|lr ls_r'] eqn:E; [exact R|]. rewrite <- E in *.
+      apply no_double_prefix_app; [rewrite E; discriminate|apply (no_double_prefix_entries i es ls_r W Mr)]. }
+    cbn [app]. rewrite <- app_assoc.
+    rewrite (entry_step i e We k ln l ls_m (ls_r ++ rest) acc errs Ml Mm R').
+    + destruct (IH W k (S ln + length (se_more e))%nat ls_r rest (acc ++ [denote_entry e]) errs Mr R) as (fuel' & Hf' & P).
+      * cbn [length] in Hf. rewrite !app_length in Hf. lia.
+      * unfold has_open_entry in *. rewrite existsb_app. cbn [existsb]. rewrite is_open_denote, orb_false_r.
+        destruct (existsb is_open acc); destruct (is_open_value (se_value e)); cbn [orb] in *; lia.
+      * exists fuel'. split; [exact Hf'|]. rewrite P. cbn [map length]. rewrite <- app_assoc. cbn [app].
+        assert (Lm : length ls_m = length (se_more e)) by (rewrite <- (map_length l_text), Mm, map_length; reflexivity).
+        rewrite app_length, Lm. f_equal. lia.
+    + intros Hop. rewrite Hop in Ho. destruct (has_open_entry acc); [lia|reflexivity].
+Qed.
+
+(* the good part of a record up to (not including) the entries: what parse_record has computed when it reaches them *)
+Lemma record_prefix_errs r b hl rest head tail ls_e : wf_record r = true ->
+  significant_lines b = (hl :: rest, head, tail) ->
+  l_text hl = utf8_encode (headline_text r) ->
+  forall ls_s, rest = ls_s ++ ls_e -> map l_text ls_s = map utf8_encode (sr_summary r) ->
+  match ls_e with l :: _ => find_indentation (l_text l) = Some (indent_text (sr_indent r)) | [] => False end ->
+  snd (parse_entries (length ls_e) (indent_text (sr_indent r)) (S head + length (sr_summary r)) ls_e [] []) <> [] ->
+  block_fails b.
+Proof.
+  intros W Hsig Mh ls_s -> Ms Hind Herr.
+  destruct (wf_record_inv r W) as (W' & H3 & H2 & H1 & H0 & H).
+  pose proof (parse_record_shape b hl (ls_s ++ ls_e) head tail Hsig) as Sh. cbv zeta in Sh.
+  rewrite Mh, (decode_encode _ (headline_text_ok r W)), (parse_headline_spec head r W' H3 H2) in Sh. cbn [headline_errs] in Sh.
+  rewrite (parse_summary_lines_spec (sr_summary r) H1 ls_s (S head) ls_e [] Ms) in Sh.
+  destruct ls_e as [|le ls_e']; [contradiction|]. rewrite Hind in Sh.
+  destruct Sh as [[E _]|[Hne P]]; [congruence|]. eexists; split; [exact P|exact Hne].
+Qed.
+
+(* an entry line on which the parser reports an error *)
+Definition entry_line_errs (ind : text) (t : text) : Prop :=
+  has_prefix ind (utf8_encode t) = false \/ is_space_or_tab (peek t (length ind)) = true
+  \/ forall ln, exists e, parse_entry_value ln t (length ind) = EvErr e.
+
+Lemma bad_entry_line_errs ind t k ln l rest es errs : text_ok t = true -> l_text l = utf8_encode t ->
+  entry_line_errs ind t -> snd (parse_entries (S k) ind ln (l :: rest) es errs) <> [].
+Proof.
+  intros Tok Ml H. rewrite parse_entries_step. cbv zeta. rewrite Ml, (decode_encode _ Tok).
+  destruct H as [H|[H|H]].
+  - rewrite H. cbn [negb orb snd]. intros E. apply app_eq_nil in E as [_ E]. discriminate.
+  - rewrite H, orb_true_r. cbn [snd]. intros E. apply app_eq_nil in E as [_ E]. discriminate.
+  - destruct (negb (has_prefix ind (utf8_encode t)) || is_space_or_tab (peek t (length ind))).
+    + cbn [snd]. intros E. apply app_eq_nil in E as [_ E]. discriminate.
+    + destruct (H ln) as [e ->].
+      apply (extends_nonempty (errs ++ [e])); [apply parse_entries_extends|].
+      intros E. apply app_eq_nil in E as [_ E]. discriminate.
+Qed.
+
+(* L4, block level: record r with the value line of one entry (the one after the entries es1) replaced by the line t *)
+Definition line_errs_after (ind : text) (acc : list entry) (t : text) : Prop :=
+  forall k ln l rest errs, l_text l = utf8_encode t -> snd (parse_entries (S k) ind ln (l :: rest) acc errs) <> [].
+
+Lemma bad_entry_fails_gen r es1 e es2 t : wf_record r = true -> sr_entries r = es1 ++ e :: es2 ->
+  let ind := indent_text (sr_indent r) in
+  (exists c x, utf8_encode t = ind ++ c :: x /\ is_space_or_tab c = false) ->     (* indented once: not a continuation line *)
+  line_errs_after ind (map denote_entry es1) t ->
+  forall others,
+  forallb (fun t => negb (blank_text t))
+    (headline_text r :: sr_summary r ++ flat_map (entry_texts ind) es1 ++ t :: others) = true ->
+  sig_fails (headline_text r :: sr_summary r ++ flat_map (entry_texts ind) es1 ++ t :: others).
+Proof.
+  intros W Ee ind (c & x & Eb & Hc) Herr others Nb b head sig tail Hb Hh Ht M.
+  destruct (sig_significant b head sig tail _ _ Hb Hh Ht M Nb) as (hl & rs & -> & Mh & Mr & Sg).
+  destruct (wf_record_inv r W) as (W' & H3 & H2 & H1 & H0 & H).
+  rewrite map_app in Mr. apply map_eq_app in Mr as (ls_s & ls_e & -> & Ms & Me).
+  rewrite map_app in Me. apply map_eq_app in Me as (ls_g & ls_b & -> & Mg & Mb).
+  cbn [map] in Mb. apply map_eq_cons in Mb as (lb & ls_x & -> & Mlb & Mx).
+  rewrite Ee, forallb_app in H0. apply andb_true_iff in H0 as [H01 _].
+  assert (Ho1 : (count_open es1 <= 1)%nat).
+  { rewrite Ee in H. unfold count_open in *. rewrite filter_app, app_length in H. lia. }
+  assert (Rb : no_double_prefix ind (lb :: ls_x)).
+  { unfold no_double_prefix. rewrite Mlb, Eb, has_prefix_app_same. apply has_prefix_indent_head. exact Hc. }
+  apply (record_prefix_errs r b hl _ _ _ (ls_g ++ lb :: ls_x) W Sg Mh ls_s eq_refl Ms).
+  - destruct ls_g as [|lg ls_g'].
+    + cbn [app]. rewrite Mlb, Eb. apply find_indentation_entry. exact Hc.
+    + destruct es1 as [|e1 es1']; [discriminate|]. cbn [flat_map entry_texts app map] in Mg. injection Mg as Mlg _.
+      cbn [forallb] in H01. apply andb_true_iff in H01 as [We1 _].
+      destruct (entry_line_bytes (sr_indent r) e1 We1) as (c1 & x1 & Eb1 & Hc1).
+      cbn [app]. rewrite Mlg.
+      change (find_indentation (utf8_encode (indent_text (sr_indent r) ++ render_value (se_value e1) ++ first_tail e1))
+              = Some (indent_text (sr_indent r))).
+      rewrite Eb1. apply find_indentation_entry. exact Hc1.
+  - destruct (parse_entries_prefix (sr_indent r) es1 H01 (length (ls_g ++ lb :: ls_x)) (S (length head) + length (sr_summary r))
+                ls_g (lb :: ls_x) [] [] Mg Rb) as (fuel' & Hf' & P).
+    + rewrite app_length. lia.
+    + cbn [has_open_entry existsb]. lia.
+    + rewrite P. destruct fuel' as [|k']; [cbn [length] in Hf'; lia|].
+      apply (Herr k' _ lb ls_x [] Mlb).
+Qed.
+
+Lemma bad_entry_fails r es1 e es2 t : wf_record r = true -> sr_entries r = es1 ++ e :: es2 ->
+  let ind := indent_text (sr_indent r) in
+  text_ok t = true ->
+  (exists c x, utf8_encode t = ind ++ c :: x /\ is_space_or_tab c = false) ->
+  entry_line_errs ind t ->
+  forall others,
+  forallb (fun t => negb (blank_text t))
+    (headline_text r :: sr_summary r ++ flat_map (entry_texts ind) es1 ++ t :: others) = true ->
+  sig_fails (headline_text r :: sr_summary r ++ flat_map (entry_texts ind) es1 ++ t :: others).
+Proof.
+  intros W Ee ind Tok Hshape Herr. apply (bad_entry_fails_gen r es1 e es2 t W Ee Hshape).
+  intros k ln l rest errs Ml. apply (bad_entry_line_errs ind t k ln l rest _ errs Tok Ml Herr).
+Qed.
+
+(* ---- B1: reversed range ---- *)
+
+Lemma parse_entry_value_reversed ln pre a sp1 sp2 b tail :
+  wf_time a = true -> wf_time b = true -> timeline b < timeline a -> tail_ok tail ->
+  exists e, parse_entry_value ln (pre ++ render_value (SRange a sp1 sp2 b) ++ tail) (length pre) = EvErr e.
+Proof.
+  intros Wa Wb Hab T. cbn [render_value].
+  pose proof (render_time_plain b Wb) as Pl. pose proof (render_time_shape b Wb) as Sh.
+  pose proof (render_time_ascii b Wb) as As. pose proof (time_shape_head _ Sh) as Hd.
+  replace (pre ++ (render_time a ++ spaces sp1 ++ [45%N] ++ spaces sp2 ++ render_time b) ++ tail)
+    with (pre ++ render_time a ++ spaces sp1 ++ [45%N] ++ spaces sp2 ++ (render_time b ++ tail)) by app_eq.
+  rewrite entry_value_range_start; [|exact Wa|destruct (render_time b); [contradiction|apply Hd]].
+  cbv zeta.
+  set (cs := pre ++ render_time a ++ spaces sp1 ++ [45%N] ++ spaces sp2 ++ render_time b ++ tail).
+  set (p3 := (length pre + length (render_time a) + sp1 + 1 + sp2)%nat).
+  rewrite (peek_at cs p3 (pre ++ render_time a ++ spaces sp1 ++ [45%N] ++ spaces sp2) (render_time b ++ tail)
+             ltac:(unfold cs; app_eq) ltac:(unfold p3, spaces; len_eq)).
+  destruct (render_time b) as [|c0 r0] eqn:Erb; [contradiction|]. destruct Hd as (_ & Hq & _).
+  cbn [app]. rewrite Hq. rewrite <- Erb in *.
+  rewrite (peek_until_at is_space_or_tab cs p3 (pre ++ render_time a ++ spaces sp1 ++ [45%N] ++ spaces sp2) (render_time b) tail
+             ltac:(unfold cs; rewrite Erb; app_eq) ltac:(unfold p3, spaces; len_eq)
+             (plain_not_space_or_tab _ Pl) (tail_stops tail T)).
+  cbv iota beta. rewrite Erb at 1. change (Nat.eqb (length (c0 :: r0)) 0) with false. cbv iota.
+  unfold str. rewrite (utf8_encode_ascii _ As), (parse_render_time b Wb).
+  unfold new_range, time_geb. rewrite !timeline_offset by assumption.
+  destruct (timeline b >=? timeline a) eqn:E; [lia|]. eexists; reflexivity.
+Qed.
+
+Lemma entry_value_line_shape i v tail : wf_value v = true -> text_ok tail = true ->
+  let t := indent_text i ++ render_value v ++ tail in
+  text_ok t = true /\ (exists c x, utf8_encode t = indent_text i ++ c :: x /\ is_space_or_tab c = false)
+  /\ has_prefix (indent_text i) (utf8_encode t) = true /\ is_space_or_tab (peek t (length (indent_text i))) = false.
+Proof.
+  intros Wv Tt t. destruct (render_value_text_ok v Wv) as [Tv As]. pose proof (render_value_head v Wv) as Hd.
+  assert (Tok : text_ok t = true).
+  { unfold t. rewrite !text_ok_app, Tv, Tt. replace (text_ok (indent_text i)) with true by (destruct i; reflexivity). reflexivity. }
+  destruct (render_value v) as [|c r] eqn:Ev; [contradiction|].
+  cbn [ascii forallb] in As. apply andb_true_iff in As as [Hc _].
+  assert (Eb : utf8_encode t = indent_text i ++ c :: utf8_encode (r ++ tail)).
+  { unfold t. rewrite Ev. rewrite utf8_encode_app, (utf8_encode_ascii _ (indent_ascii i)). cbn [app]. rewrite (encode_cons_ascii _ _ Hc). reflexivity. }
+  split; [exact Tok|]. split; [eexists; eexists; split; [exact Eb|exact Hd]|].
+  split; [rewrite Eb; apply has_prefix_app|].
+  unfold t. rewrite Ev. rewrite (peek_at_cons _ _ (indent_text i) c (r ++ tail) eq_refl eq_refl). exact Hd.
+Qed.
+
+(* ---- B2: a second open range ---- *)
+
+Lemma second_open_errs i a sp1 sp2 extra tail acc : wf_time a = true -> tail_ok tail -> text_ok tail = true ->
+  has_open_entry acc = true ->
+  line_errs_after (indent_text i) acc (indent_text i ++ render_value (SOpen a sp1 sp2 extra) ++ tail).
+Proof.
+  intros Wa T Tt Hop k ln l rest errs Ml.
+  destruct (entry_value_line_shape i (SOpen a sp1 sp2 extra) tail Wa Tt) as (Tok & _ & Hp & Hk).
+  rewrite parse_entries_step. cbv zeta. rewrite Ml, (decode_encode _ Tok), Hp, Hk. cbn [negb orb].
+  rewrite (parse_entry_value_spec ln (indent_text i) (SOpen a sp1 sp2 extra) tail Wa T). cbn [denote_value ev_of]. cbv iota beta.
+  destruct (parse_entry_summary_more _ _ _ _) as [[[summary serr] rest'] ln'].
+  destruct serr as [e|].
+  - apply (extends_nonempty (errs ++ [e])); [apply parse_entries_extends|]. intros E. apply app_eq_nil in E as [_ E]. discriminate.
+  - rewrite Hop.
+    match goal with |- snd (parse_entries _ _ _ _ _ (errs ++ [?e])) <> [] =>
+      apply (extends_nonempty (errs ++ [e])); [apply parse_entries_extends|] end.
+    intros E. apply app_eq_nil in E as [_ E]. discriminate.
+Qed.
+
+Lemma has_open_denote es : has_open_entry (map denote_entry es) = negb (Nat.eqb (count_open es) 0).
+Proof.
+  unfold has_open_entry, count_open. induction es as [|e es IH]; [reflexivity|]. cbn [map existsb filter].
+  rewrite is_open_denote, IH. destruct (is_open_value (se_value e)); reflexivity.
+Qed.
+
+(* ================= the fault classes at document level ================= *)
+
+Lemma replace_nth_app {A} (a : list A) x y b : replace_nth (length a) x (a ++ y :: b) = a ++ x :: b.
+Proof. induction a as [|z a IH]; [reflexivity|]. cbn [length app replace_nth]. rewrite IH. reflexivity. Qed.
+
+(* the index, within a record's lines, of the value line of the entry that follows the entries es1 *)
+Definition entry_line_index (r : s_record) (es1 : list s_entry) : nat :=
+  S (length (sr_summary r) + length (flat_map (entry_texts (indent_text (sr_indent r))) es1)).
+
+Lemma record_texts_split r es1 e es2 t : sr_entries r = es1 ++ e :: es2 ->
+  let ind := indent_text (sr_indent r) in
+  replace_nth (entry_line_index r es1) t (record_texts r)
+  = headline_text r :: sr_summary r ++ flat_map (entry_texts ind) es1 ++ t ::
+      (map (fun x => ind ++ ind ++ x) (se_more e) ++ flat_map (entry_texts ind) es2).
+Proof.
+  intros Ee ind. unfold record_texts, entry_line_index. rewrite Ee. cbn [replace_nth]. f_equal.
+  rewrite flat_map_app. cbn [flat_map]. unfold entry_texts at 2. cbn [app].
+  rewrite app_assoc, <- app_length. rewrite replace_nth_app, <- app_assoc. reflexivity.
+Qed.
+
+Section EntryFault.
+  Variables (d : s_doc) (k : nat) (rg : s_record * list text) (es1 : list s_entry) (e : s_entry) (es2 : list s_entry) (t : text).
+  Hypothesis W : wf d.
+  Hypothesis Hk : nth_error (do_records d) k = Some rg.
+  Hypothesis Ee : sr_entries (fst rg) = es1 ++ e :: es2.
+  Let r := fst rg.
+  Let ind := indent_text (sr_indent r).
+  Let j := entry_line_index r es1.
+  Hypothesis Rok : raw_ok (inject_raw k j t d) = true.
+
+  Lemma wf_record_k : wf_record r = true.
+  Proof.
+    unfold wf, wf_doc in W. apply andb_true_iff in W as [W' _]. apply andb_true_iff in W' as [W' _]. apply andb_true_iff in W' as [_ Wr].
+    apply (forallb_nth_error _ _ k rg Wr Hk).
+  Qed.
+
+  Lemma injected_nonblank : forallb (fun t => negb (blank_text t)) (replace_nth j t (record_texts r)) = true.
+  Proof.
+    pose proof Rok as Rok'. unfold raw_ok in Rok'. apply andb_true_iff in Rok' as [W' _]. apply andb_true_iff in W' as [W' _].
+    apply andb_true_iff in W' as [_ Sg]. rewrite (inject_group k j t d rg Hk) in Sg.
+    pose proof (forallb_nth_error _ _ k _ Sg (nth_error_replace_nth _ k (record_texts (fst rg), snd rg) _
+                 (map_nth_error (fun rg => (record_texts (fst rg), snd rg)) k (do_records d) Hk))) as Sk.
+    cbn [fst] in Sk. apply andb_true_iff in Sk as [_ Nb]. exact Nb.
+  Qed.
+
+  Lemma reject_entry_gen :
+    (exists c x, utf8_encode t = ind ++ c :: x /\ is_space_or_tab c = false) ->
+    line_errs_after ind (map denote_entry es1) t ->
+    exists es, parse_text (inject k j t d) = Ok (Failed es) /\ es <> [].
+  Proof.
+    intros Hshape Herr. apply (reject_raw _ Rok).
+    rewrite (inject_group k j t d rg Hk).
+    apply (Exists_replace_nth _ _ k (record_texts (fst rg), snd rg)).
+    { apply (map_nth_error (fun rg => (record_texts (fst rg), snd rg)) k (do_records d) Hk). }
+    cbn [fst]. pose proof injected_nonblank as Nb. fold r. unfold j in *.
+    rewrite (record_texts_split r es1 e es2 t Ee) in *.
+    apply (bad_entry_fails_gen r es1 e es2 t wf_record_k Ee Hshape Herr). exact Nb.
+  Qed.
+End EntryFault.
+
+(* L4, class "reversed range": the value line of an entry is replaced by a range whose end lies before its start *)
+Theorem reject_reversed_range d k rg es1 e es2 a sp1 sp2 b tail :
+  wf d -> nth_error (do_records d) k = Some rg -> sr_entries (fst rg) = es1 ++ e :: es2 ->
+  wf_time a = true -> wf_time b = true -> timeline b < timeline a -> tail_ok tail -> text_ok tail = true ->
+  let t := indent_text (sr_indent (fst rg)) ++ render_value (SRange a sp1 sp2 b) ++ tail in
+  let j := entry_line_index (fst rg) es1 in
+  raw_ok (inject_raw k j t d) = true ->
+  exists es, parse_text (inject k j t d) = Ok (Failed es) /\ es <> [].
+Proof.
+  intros W Hk Ee Wa Wb Hab T Tt t j Rok.
+  (* the range is well-formed as a piece of text (times are), only not chronological *)
+  assert (Sh : text_ok t = true /\ (exists c x, utf8_encode t = indent_text (sr_indent (fst rg)) ++ c :: x /\ is_space_or_tab c = false)).
+  { pose proof (render_time_text_ok a Wa) as Ta. pose proof (render_time_text_ok b Wb) as Tb.
+    pose proof (render_time_ascii a Wa) as Aa. pose proof (time_shape_head _ (render_time_shape a Wa)) as Hd.
+    assert (Tok : text_ok t = true).
+    { unfold t. cbn [render_value]. rewrite !text_ok_app, Ta, Tb, Tt. unfold spaces. rewrite !text_ok_repeat by reflexivity.
+      replace (text_ok (indent_text (sr_indent (fst rg)))) with true by (destruct (sr_indent (fst rg)); reflexivity). reflexivity. }
+    split; [exact Tok|]. unfold t. cbn [render_value].
+    destruct (render_time a) as [|c r0] eqn:Ea; [contradiction|]. destruct Hd as (Hd & _).
+    cbn [ascii forallb] in Aa. apply andb_true_iff in Aa as [Hc _].
+    rewrite utf8_encode_app, (utf8_encode_ascii _ (indent_ascii _)). cbn [app]. rewrite (encode_cons_ascii _ _ Hc).
+    eexists; eexists; split; [reflexivity|exact Hd]. }
+  destruct Sh as [Tok Hshape].
+  apply (reject_entry_gen d k rg es1 e es2 t W Hk Ee Rok Hshape).
+  intros k0 ln l rest errs Ml.
+  apply (bad_entry_line_errs _ t k0 ln l rest _ errs Tok Ml).
+  right. right. intros ln0. apply (parse_entry_value_reversed ln0 _ a sp1 sp2 b tail Wa Wb Hab T).
+Qed.
+
+(* L4, class "second open range": the value line of an entry that comes after an open range is replaced by an open range *)
+Theorem reject_second_open d k rg es1 e es2 a sp1 sp2 extra tail :
+  wf d -> nth_error (do_records d) k = Some rg -> sr_entries (fst rg) = es1 ++ e :: es2 ->
+  count_open es1 <> 0%nat ->
+  wf_time a = true -> tail_ok tail -> text_ok tail = true ->
+  let t := indent_text (sr_indent (fst rg)) ++ render_value (SOpen a sp1 sp2 extra) ++ tail in
+  let j := entry_line_index (fst rg) es1 in
+  raw_ok (inject_raw k j t d) = true ->
+  exists es, parse_text (inject k j t d) = Ok (Failed es) /\ es <> [].
+Proof.
+  intros W Hk Ee Ho Wa T Tt t j Rok.
+  destruct (entry_value_line_shape (sr_indent (fst rg)) (SOpen a sp1 sp2 extra) tail Wa Tt) as (Tok & Hshape & _).
+  apply (reject_entry_gen d k rg es1 e es2 t W Hk Ee Rok Hshape).
+  apply second_open_errs; try assumption.
+  rewrite has_open_denote. destruct (count_open es1); [congruence|reflexivity].
+Qed.
